@@ -2,15 +2,17 @@ SPECIFICATION GSpec
 CONSTANTS
   Times = {1}
   Prices = {1, 2}
-  Qtys = {1, 2, 3}
+  Qtys = {0, 1, 3}
+  NegQtys = {2}
   BalInit = {0, 300, 600}
   FeePcts = {0, 50}
   Lats = {2}
   Sinces = {0, 2}
-  OpenCids = {}
+  OpenCids = {"o1", "o3"}
   MaxTrades = 1
   ClockSlack = FALSE
   IdSlack = 0
+  OrderSubsets = FALSE
   MaxLen = 1
 INVARIANT Emit
 CHECK_DEADLOCK FALSE
